@@ -116,9 +116,12 @@ Paths  == {"/publicKey", "/publicKey/0", "/publicKeys", "/service", "/service/0/
            \* no leading '/': the JSON patch library ignores what precedes the first '/', so these address the sections
            "x/publicKey", "publicKey", "x/service/0",
            \* other spellings of /arr/0 (a copy from /arr/0 into them is a copy into itself) and an index far beyond the end
-           "/arr/00/-", "/arr/+0/-", "/arr/1099511627776"}
+           "/arr/00/-", "/arr/+0/-", "/arr/1099511627776",
+           \* RFC 6901 escapes: "~01" is the two characters "~1" (not "/"): a member named "~1" and a location inside it
+           "/~01", "/~01/x", "/~10", "/a~1b/x"}
 \* "NULL": the member is present with the JSON value null; "/copied": what the first operation {copy /other -> /copied} created
-Froms  == {"ABSENT", "/publicKey", "/service/0", "/other", "/arr/0", "/missing", "NONSTRING", "NULL", "/copied", "x/service", "/publicKeys"}
+Froms  == {"ABSENT", "/publicKey", "/service/0", "/other", "/arr/0", "/missing", "NONSTRING", "NULL", "/copied", "x/service", "/publicKeys",
+           "/~01", "/a~1b"}
 Values == {"present", "null", "ABSENT"}
 InProtected(s) == s \in {"/publicKey", "/publicKey/0", "/service", "/service/0/id", "/service/0", "x/publicKey", "publicKey", "x/service/0", "x/service"}
 \* "/publicKeys" and "/serviceCount" are other members that merely share a prefix with a section name: not protected
